@@ -166,6 +166,8 @@ def render_entries(entries, ind, out):
                 out.append("%sset %s=%s%s" % (p, s["t"], atom_text(s["v"], as_string=s.get("str", False)), cond_suffix(s["c"])))
             for s in e["wsets"]:
                 out.append("%sset default %s=%s%s" % (p, s["t"], atom_text(s["v"], as_string=s.get("str", False)), cond_suffix(s["c"])))
+            if e.get("warning"):
+                out.append('%swarning "%s"' % (p, e["warning"]))
             if e.get("help"):
                 out.append("%shelp" % p)
                 out.append("%s    %s" % (p, e["help"]))
@@ -596,6 +598,8 @@ def _config_lines(e, style, rng):
     for s in e["wsets"]:
         sl.append("set default %s=%s%s" % (s["t"], atom_text(s["v"], as_string=s.get("str", False)), cond_suffix(s["c"])))
     rest.append(sl)
+    if e.get("warning"):
+        rest.append('warning "%s"' % e["warning"])
     if style.get("shuffle"):
         rng.shuffle(rest)
     out = list(first)
